@@ -28,6 +28,8 @@ func skip(format string, a ...interface{}) { panic(&SkipError{fmt.Sprintf(format
 type Options struct {
 	// RealName resolves the declared package name for an import path ("" = unknown).
 	RealName func(path string) string
+	// Std reports whether path is an importable package of the standard library (nil: unknown).
+	Std func(path string) bool
 	// Exported returns the exported top-level names of the package at path
 	// (for dot-imports); nil, false when the directory cannot be found.
 	Exported func(path string) (map[string]bool, bool)
@@ -946,6 +948,13 @@ func File(af *ast.File, o Options, siblings map[string]bool) (fr *recipe.File, e
 					skip("duplicate-import-name %s", n) // two imports under one name: does not compile, has no DSL form
 				}
 				t.imports[n] = path
+				if o.Alt != nil && o.Std != nil && o.Std(path) && o.Alt.Choose(2) == 1 {
+					// a standard library package needs no name hint: jennifer knows what it declares
+					if o.Stats != nil {
+						o.Stats.AltIdent++
+					}
+					continue
+				}
 				op("ImportName", path, n)
 			case is.Name.Name == "_":
 				op("Anon", path)
